@@ -847,4 +847,52 @@ example : Retry.connect 3 (fun i => if i < 2 then .temp else .ok) = (.conn 2, 3)
     Retry.connect 2 (fun _ => .temp) = (.err, 2) := by
   refine ⟨?_, ?_, ?_⟩ <;> decide
 
+/-! ## The event debouncers' stop() (Session.Close) against the flusher at each of its program points (`EvStop`)
+
+eventDebouncer.stop() hands `quit` to the flusher over an unbuffered channel; the flusher's timer branch takes e.mu.
+stop() holds no lock, so whatever the flusher is doing — in its select, committed to the timer branch and waiting for
+e.mu behind a debounce(), flushing — it comes back to the select and takes the quit. -/
+
+/-- **stop() (hence Session.Close) is never blocked for good on an event debouncer**: for every schedule of debounce()
+    calls, timer expiries, somebody slow inside e.mu, flusher steps and stop(): a stop() waiting in its send holds
+    nothing the flusher needs, the flusher is alive, and a flusher step is enabled — or somebody else is inside e.mu
+    and can leave -/
+theorem C17_evdeb_stop_never_blocked_for_good (as : List EvStop.Act) (x : EvStop.St) (hr : EvStop.run EvStop.init as = some x)
+    (hs : x.s = .sending) :
+    x.mu ≠ .S ∧ x.f ≠ .exited ∧
+    ((∃ a, EvStop.fAct a = true ∧ (EvStop.step x a).isSome = true) ∨ (x.mu = .H ∧ (EvStop.step x .hunlock).isSome = true)) := by
+  have inv := C17EvDeb.inv_run as _ x C17EvDeb.inv_init hr
+  exact ⟨inv.noS, inv.alive hs, C17EvDeb.progress x inv hs⟩
+
+/-- … and every step of the flusher releases it or brings the flusher strictly closer to the select that takes the quit
+    (measure ≤ 6: a timer value already in the channel may cost one more flush round) -/
+theorem C17_evdeb_stop_wait_bounded (as : List EvStop.Act) (x x' : EvStop.St) (a : EvStop.Act)
+    (_hr : EvStop.run EvStop.init as = some x) (hs : x.s = .sending) (hst : EvStop.step x a = some x') (hf : EvStop.fAct a = true) :
+    x'.s = .closing ∨ (x'.s = .sending ∧ EvStop.mu x' < EvStop.mu x) :=
+  C17EvDeb.mu_step x x' a hs hst hf
+
+/-- once stop() is past its send the flusher goroutine has exited -/
+theorem C17_evdeb_flusher_exits (as : List EvStop.Act) (x : EvStop.St) (hr : EvStop.run EvStop.init as = some x)
+    (hs : x.s = .closing ∨ x.s = .done) : x.f = .exited :=
+  (C17EvDeb.inv_run as _ x C17EvDeb.inv_init hr).gone hs
+
+/-- what the schedules are there to catch (stop() taking e.mu and keeping it across the send — NOT the code that
+    exists): the timer fires, the flusher commits to the timer branch, stop() gets the mutex first: along EVERY
+    continuation stop() stays in its send and the flusher stays in front of the mutex -/
+theorem C17_evdeb_stop_holding_mu_deadlocks :
+    ∃ x, EvStop.runG true EvStop.init [.deb, .fire, .fTimer, .stop, .sLock] = some x ∧
+      ∀ (bs : List EvStop.Act) (x' : EvStop.St), EvStop.runG true x bs = some x' → x'.s = .sending ∧ x'.f = .wantLock := by
+  refine ⟨_, rfl, ?_⟩
+  intro bs x' hr
+  have h := C17EvDeb.dead_run bs _ x' ⟨by decide, by decide, by decide⟩ hr
+  exact ⟨h.s, h.f⟩
+
+/-- non-vacuity: an event is buffered, a slow debounce() holds e.mu, the timer fires and the flusher waits for the
+    mutex; stop() blocks in its send; the mutex is released: flush (one callback), quit taken, stop() returns -/
+example : ∃ x1 x2, EvStop.run EvStop.init [.deb, .hlock, .fire, .fTimer, .stop] = some x1 ∧
+    x1.s = .sending ∧ x1.f = .wantLock ∧ EvStop.mu x1 = 3 ∧
+    EvStop.run x1 [.hunlock, .fLock, .fFlush, .fQuit, .stopDone] = some x2 ∧
+    x2.s = .done ∧ x2.f = .exited ∧ x2.callbacks = 1 ∧ x2.mu = .none := by
+  refine ⟨_, _, rfl, by decide, by decide, by decide, rfl, by decide, by decide, by decide, by decide⟩
+
 end C17
